@@ -691,6 +691,10 @@ pub fn member_alphabet() -> Vec<MSpec> {
         m(11, "./s.dlt", 23),
         m(12, "../q/", 0), // hostile directory entry
         m(13, "big.dlt", 70_000),
+        // other spellings of earlier members, written later and shorter: the later one must replace the earlier
+        // file completely (or be skipped), never be spliced into it
+        m(14, "d//b.dlt", 2),
+        m(15, "./a.dlt", 1),
     ]
 }
 
